@@ -147,12 +147,18 @@ func VerifC06_WaitVT() {
 	var sys [4]byte
 	var wroteAt int64 = -1
 	t3 := v.c.cfg.Load().timers.T3
+	slowWrite := vsymBool()
 	v.tr.onWrite = func(w vwrite) {
 		if len(w.bytes) < 14 || w.bytes[9] != 0 {
 			return // not the data primary (e.g. an S9F9 notice)
 		}
 		if wroteAt >= 0 {
 			return
+		}
+		// the write itself may take a while (a slow-reading peer, back-pressure): the reply timer
+		// counts from the moment the primary is on the wire
+		if slowWrite {
+			vsymAdvance(int64(t3) / 2)
 		}
 		wroteAt = vsymNowNS()
 		copy(sys[:], w.bytes[10:14])
